@@ -818,6 +818,22 @@ def gen_traj_case(r, tier):
             "lagged": r.random() < 0.3}
 
 
+def gen_traj_big(r, tier):
+    """numbers wider than the 21-character columns (three-digit exponents, negative) and tiny ones: fields must stay
+    separate and parse back to the printed 14 digits"""
+    sc = 2.0 ** r.choice([340, -340, 400, 120, -500])
+    vars_ = [{"id": i, "type": "z", "value": True, "velocity": r.random() < 0.7, "tforce": r.random() < 0.7, "aforce": True,
+              "extlag": False, "energy": False} for i in range(2)]
+    biases = [{"id": 0, "kind": "harmonic", "vars": [0, 1], "c": [-0.75 * sc, 1.5 * sc], "tc": [0.0, 0.0], "k": 2.0, "energy": True,
+               "centers": True, "chgc": False, "chgk": False, "tk": 1.0, "N": 4, "accw": False}]
+    events = []
+    for _ in range(r.randint(3, 6)):
+        events.append(["step", {"0": -V.dyadic(r, 1, 4, 3) * sc, "1": V.dyadic(r, -4, 4, 3) * sc},
+                       {"0": -V.dyadic(r, 1, 3, 2) * sc, "1": V.dyadic(r, 0.5, 3, 2) * sc}])
+    return {"kind": "traj", "freq": 1, "it0": r.choice([0, 123456789012]), "dt": r.choice([0.5, 2.0]), "vars": vars_, "biases": biases,
+            "events": events, "eforce": [-sc, sc], "lagged": False, "big": True}
+
+
 # ------------------------------------------------------------------ running average cases
 def runave_scenario(c, k):
     v = {"id": 0, "type": "z", "value": True}
@@ -989,6 +1005,8 @@ def vvar_block(vtype, vid, extra=()):
         L += ["  }"]
     elif vtype == "vec":
         L += ["  distanceVec {", "    group1 { atomNumbers %d }" % b, "    group2 { atomNumbers %d }" % a, "  }"]
+    elif vtype == "cart":
+        L += ["  cartesian {", "    atoms { atomNumbers %d %d }" % (a, b), "  }"]
     else:
         L += ["  distanceDir {", "    group1 { atomNumbers %d }" % b, "    group2 { atomNumbers %d }" % a, "  }"]
     L.append("}")
@@ -1082,7 +1100,7 @@ def check_runavev_case(run, c, k, impl_lines, scratch, model):
             first, boundary = True, False
     segs.append(curseg)
     vt = c["vtype"]
-    kind = {"z": "scalar", "zper": "periodic %s" % hx(PERIOD), "vec": "vector3", "unit": "unit"}[vt]
+    kind = {"z": "scalar", "zper": "periodic %s" % hx(PERIOD), "vec": "vector3", "unit": "unit", "cart": "vector3"}[vt]
     # imposed values (oracle): the implementation's values must be the imposed ones
     jj = 0
     for ev in c["events"]:
@@ -1090,6 +1108,8 @@ def check_runavev_case(run, c, k, impl_lines, scratch, model):
             continue
         if jj < len(vals) and vals[jj]["v0"] is not None and vt != "unit":
             want = [wrapz(ev[1])] if vt == "zper" else ([float(ev[1])] if vt == "z" else [float(q) for q in ev[1]])
+            if vt == "cart":
+                want = want + [0.0, 0.0, 0.0]
             if not close(vals[jj]["v0"], want, OTOL):
                 run.mismatch("runavev-values", c, vals[jj]["v0"], want)
                 return 0
@@ -1179,7 +1199,7 @@ def check_runavev_case(run, c, k, impl_lines, scratch, model):
 
 
 def gen_runavev_case(r, tier):
-    vt = r.choice(["z", "zper", "zper", "vec", "unit"])
+    vt = r.choice(["z", "zper", "zper", "vec", "unit", "cart"])
     L = r.choice([1, 2, 2, 3, 4])
     stride = r.choice([1, 2, 2, 3])
     t0 = r.choice([0, 0, 1, 2, 3, 5])
@@ -1688,6 +1708,8 @@ def run_cases(run, cases, unit, model, scratch):
         run.dist(c["kind"])
         if c["kind"] == "traj":
             run.dist("traj:nbias=%d" % len(c["biases"]))
+            if c.get("big"):
+                run.dist("traj:wide-numbers")
             for e in c["events"]:
                 if e[0] != "step":
                     run.dist("traj:event:" + e[0])
@@ -1731,6 +1753,8 @@ def check(run):
     mult = 1 if run.tier == "quick" else 12
     for _ in range(140 * mult):
         cases.append(gen_traj_case(r, run.tier))
+    for _ in range(12 * mult):
+        cases.append(gen_traj_big(r, run.tier))
     for _ in range(100 * mult):
         cases.append(gen_runave_case(r, run.tier))
     for _ in range(100 * mult):
